@@ -233,6 +233,12 @@ func (p *Parser) ParseArgs(args []string) ([]string, error) {
 		return nil, nil
 	}
 
+	// The active command chain is decided by the command words of this
+	// argument vector alone, not by an earlier call
+	p.eachCommand(func(c *Command) {
+		c.Active = nil
+	}, true)
+
 	s := &parseState{
 		args:    args,
 		retargs: make([]string, 0, len(args)),
